@@ -49,7 +49,10 @@ fn lint_by_ref_arg(
             // we can only pass an array by using the array name followed by parenthesis e.g. `Menu choice$()`
             match &arg_pos.element {
                 Expression::ArrayElement(name, args, expression_type) => {
-                    if args.is_empty() {
+                    if matches!(expression_type, ExpressionType::FixedLengthString(_)) {
+                        // an array of fixed length strings is not an array of strings
+                        Err(LintError::ArgumentTypeMismatch.at(arg_pos))
+                    } else if args.is_empty() {
                         let dummy_expr =
                             Expression::Variable(name.clone(), expression_type.clone()).at(arg_pos);
                         lint_by_ref_arg(&dummy_expr, boxed_element_type.as_ref())
